@@ -25,9 +25,10 @@ CFG = {
         "trees are well-formed in the sense of C11 (established for every reachable tree by C11_reachable)",
     ],
     "rule": "C11-style histories (grow / region delete / capacity-boundary churn; (min,max) in {(2,4),(2,5),(3,6),(3,7),(4,8),(25,50)}; "
-            "pointer, geom.Point and *geom.Bounds objects; coincident and degenerate boxes) followed by 12-14 queries each: points at box "
+            "pointer, geom.Point and *geom.Bounds objects; coincident and degenerate boxes; duplicates inserted and deleted once; "
+            "dyadic coordinate units 1, 1/2, 1/8, 1/64, 1/1024, 16 and a jittered lattice in the unit square, so that distances < 1 occur) followed by 12-14 queries each: points at box "
             "centres (half-integers), corners, on edges, just outside, far outside, grid points prone to ties, random; k in "
-            "{NearestNeighbor, 1, 2, 3, size-1, size, size+3}. One case = one history with all its queries; class = shape-kind-params-height",
+            "{NearestNeighbor, 1, 2, 3, size-1, size, size+3, random in 1..size+3}. One case = one history with all its queries; class = shape-kind-params-height",
     "timeout": {"quick": 900, "thorough": 3000},
     "explanation": "SPEC verdicts: Spec.specNN / Spec.specKNN evaluated on the implementation's answer against the multiset of objects "
                    "stored according to the history semantics (ties by distance, not identity).",
